@@ -245,10 +245,28 @@ UF = {
 PI = z3.Real('pi')
 
 
+def recip_form(t, _cache=None):
+    """rewrite x/y (y not a numeral) as x*(1/y) throughout a real term"""
+    _cache = {} if _cache is None else _cache
+    k = t.get_id()
+    if k in _cache:
+        return _cache[k]
+    if not z3.is_app(t) or t.num_args() == 0:
+        _cache[k] = t
+        return t
+    ch = [recip_form(c, _cache) for c in t.children()]
+    if t.decl().kind() == z3.Z3_OP_DIV and not z3.is_rational_value(ch[1]) and not (z3.is_rational_value(ch[0]) and ch[0].as_fraction() == 1):
+        r = ch[0] * (z3.RealVal(1) / ch[1])
+    else:
+        r = t.decl()(*ch) if any(not a.eq(b) for a, b in zip(ch, t.children())) else t
+    _cache[k] = r
+    return r
+
+
 def uf(name, *args):
     # arguments are put in sum-of-monomials normal form so that equal arguments are recognised by linear reasoning over monomials
     conv = [toreal(a) if UF[name].domain(i) == R else tonum(a) for i, a in enumerate(args)]
-    return UF[name](*[z3.simplify(c, som=True) if z3.is_real(c) else c for c in conv])
+    return UF[name](*[z3.simplify(recip_form(c), som=True) if z3.is_real(c) else c for c in conv])
 
 
 def mk_sqrt(x):
